@@ -100,6 +100,19 @@ class P(framework.Prop):
                 line = "search %s %s" % (wire.s(k), wire.val({k: 1, a: 2, a + b: 3}))
                 self.expect[line] = "OK u1"
                 out.append(line)
+        # names that other languages reserve are plain identifiers here: they select the member of that name, in every position
+        words = ["true", "false", "null", "nan", "NaN", "inf", "Infinity", "undefined", "and", "or", "not", "in", "if", "else", "e", "E", "_", "__", "x0",
+                 "True", "False", "None", "nil", "this", "self", "length", "sort_by", "map", "type", "to_number", "abs", "u0041", "n", "t", "r"]
+        for i, w in enumerate(words):
+            other = words[(i + 7) % len(words)]
+            doc = {w: i + 1, other: {w: [i + 100, {w: "in"}], "z": None}, "z": [{w: True}, {w: False}, {other: 0}]}
+            for e, exp in [(w, i + 1), ("%s.%s" % (other, w), [i + 100, {w: "in"}]), ("%s.%s[1].%s" % (other, w, w), "in"), ("[%s, %s.z]" % (w, other), [i + 1, None]),
+                           ("{%s: %s}" % (w, w), {w: i + 1}), ("z[?%s].%s" % (w, w), [True]), ("z[*].%s" % w, [True, False]), ("!%s" % w, False),
+                           ("%s == `%d`" % (w, i + 1), True), ("%s || z" % w, i + 1), ("(%s)" % w, i + 1), ("@.%s" % w, i + 1), ("type(%s)" % w, "number"),
+                           ("*.%s" % w, [[i + 100, {w: "in"}]]), ("to_array(%s)[0]" % w, i + 1)]:
+                line = "search %s %s" % (wire.s(e), wire.val(doc))
+                self.expect[line] = "OK " + wire.val(exp)
+                out.append(line)
         for b in range(0, 128):
             out.append("parse " + wire.s("a" + chr(b) + "b"))
             out.append("parse " + wire.s(chr(b) + "b"))
